@@ -77,6 +77,8 @@ func checkC06(r *Run) {
 		return
 	}
 	r.Rule("C06.R1.guard", "Operation.apply is called only from the frozen set of appliers; outside TxRequest.commitTo each call lies on the true edge of supersedes(ctx, w, op) with the same writer w and operation op", 4)
+	r.Rule("C06.R1.complete", "after supersedes reported true for an operation, every path of that iteration applies it (no further filtering of superseding operations, tombstones included)", 2)
+	r.Rule("C06.R6.lease", "leaseAllocator.getLease answers with the Leaseholder of the stored digest whenever one exists, whatever its variant: a deleted key keeps its leaseholder, so versions of one key always come from one counter", 1)
 	r.Rule("C06.R2.digest", "after every Operation.apply each path to a normal continuation passes op.Digest().apply with the same writer; no digest is written without its value", 3)
 	r.Rule("C06.R3.version", "Operation.Version is written only in versionAssigner.assign (from the counter value read before a successful counter.Add), Digest.Operation and recoveryServer.recoverPeer", 4)
 	r.Rule("C06.R4.topology", "kv.Open wires gossip ingress -> filterPersist only, leaseProxy(local) -> versionAssigner -> persist, filterPersist(accepted) -> persist_delta, filterPersist(rejected) -> feedback_sender, and the lease proxy takes the local route iff Leaseholder == HostKey()", 9)
@@ -86,9 +88,64 @@ func checkC06(r *Run) {
 	checkVersionOwnership(r, k)
 	checkKVTopologyC06(r, k)
 	checkRecoveryServer(r, k)
+	checkLeaseSticky(r, k)
 }
 
 // ---- R1
+
+// checkLeaseSticky decides C06.R6.
+func checkLeaseSticky(r *Run, k *kvCtx) {
+	p := k.p
+	fn := p.Func(kvPkg, "leaseAllocator", "getLease")
+	if fn == nil {
+		r.Undecide("C06.R6: leaseAllocator.getLease not found")
+		return
+	}
+	c := p.CFG(fn)
+	var dig types.Object
+	var getCall *ast.CallExpr
+	inspectNoLit(fn.Body, func(x ast.Node) bool {
+		as, ok := x.(*ast.AssignStmt)
+		if !ok || len(as.Rhs) != 1 || len(as.Lhs) != 2 {
+			return true
+		}
+		if call, ok := ast.Unparen(as.Rhs[0]).(*ast.CallExpr); ok {
+			if f := CalleeFunc(fn, call); f != nil && f.Name() == "getDigestFromKV" {
+				dig = objOf(fn, as.Lhs[0])
+				getCall = call
+			}
+		}
+		return true
+	})
+	if dig == nil {
+		r.Undecide("C06.R6: getLease no longer reads the digest with getDigestFromKV")
+		return
+	}
+	errObj := errVarOfCall(fn, getCall)
+	nilEdges := errNilEdges(c, errObj)
+	var starts []Point
+	for e := range nilEdges {
+		starts = append(starts, Point{e.B.Succs[e.Succ], -1})
+	}
+	if len(starts) == 0 {
+		r.Undecide("C06.R6: the success edge of getDigestFromKV was not found")
+		return
+	}
+	_, vis := c.ReachAvoiding(starts, nil, nil)
+	good, detail, n := true, "", 0
+	for _, ex := range c.Exits() {
+		if !vis[ex.P] || ex.Return == nil || len(ex.Return.Results) != 2 {
+			continue
+		}
+		n++
+		f, ok := isFieldOfObj(fn, ex.Return.Results[0], dig)
+		if !ok || f != "Leaseholder" || !isNilIdent(fn, ex.Return.Results[1]) {
+			good = false
+			detail = "after the digest was read, " + posOf(p, ex.Return) + " returns " + types.ExprString(ex.Return.Results[0]) + ", " + types.ExprString(ex.Return.Results[1])
+		}
+	}
+	r.Ob("C06.R6.lease", "getLease returns the stored digest's leaseholder on every path after a successful read", p.Position(fn.Pos()), good && n > 0, detail)
+}
 
 func checkApplyGuard(r *Run, k *kvCtx, rule string) {
 	p := k.p
@@ -153,6 +210,21 @@ func checkApplyGuard(r *Run, k *kvCtx, rule string) {
 		}
 		r.ObPath(rule, "apply in "+fn.Top().Name+" is behind supersedes on the same transaction and operation", p.Position(cs.Call.Pos()), len(gate) > 0 && !vis[target],
 			"an operation applied without the conflict rule (or with the rule evaluated on a different reader) can replace a newer one", path)
+		// completeness: once the rule said "supersedes", the operation is applied in this
+		// iteration (a skipped tombstone or value leaves this replica without the digest
+		// that rejects older duplicates later)
+		if rule == "C06.R1.guard" && len(gate) > 0 {
+			loop := enclosingLoop(fn, cs.Call)
+			var bad []string
+			for e := range gate {
+				start := Point{e.B.Succs[e.Succ], -1}
+				if pth := c.leavesWithout(start, loop, nil, func(n ast.Node) bool { return contains(n, cs.Call) }); pth != nil {
+					bad = pth
+				}
+			}
+			r.ObPath("C06.R1.complete", "an operation that supersedes is applied in "+fn.Top().Name, p.Position(cs.Call.Pos()), bad == nil,
+				"a path leaves the iteration after supersedes == true without applying the operation", bad)
+		}
 	}
 	if n < 3 {
 		r.Undecide("%s: only %d Operation.apply call sites found (expected 3)", rule, n)
